@@ -46,6 +46,7 @@ import (
 	internalsock "github.com/tetratelabs/wazero/internal/sock"
 	internalsys "github.com/tetratelabs/wazero/internal/sys"
 	"github.com/tetratelabs/wazero/internal/sysfs"
+	"github.com/tetratelabs/wazero/internal/wasm"
 	"github.com/tetratelabs/wazero/sys"
 	"github.com/tetratelabs/wazero/verifharness/hx"
 	"github.com/tetratelabs/wazero/verifharness/wb"
@@ -977,6 +978,8 @@ func guestModule() []byte {
 		m.AddFunc(wb.Func{Params: ps, Results: []byte{i32}, Body: body, Export: x.n})
 	}
 	m.Memory(1, nil, false, "memory")
+	// a module name in the binary: InstantiateModule consults it when the configuration has no name set
+	m.M.NameSection = &wasm.NameSection{ModuleName: "guest"}
 	return m.Bytes()
 }
 
@@ -989,17 +992,28 @@ func sockCfg() *internalsock.Config {
 	return sockOnce
 }
 
-func (r *run) ensureRuntime() {
+var guestInfraErr string
+
+// ensureRuntime: false if the guest runtime cannot be set up (possible when the code under test corrupts
+// the shared default configuration; reported as a fault at the end unless a violation explains it).
+func (r *run) ensureRuntime() bool {
 	if r.rt != nil {
-		return
+		return true
 	}
-	r.rt = wazero.NewRuntimeWithConfig(r.ctx, wazero.NewRuntimeConfigInterpreter())
-	wasi_snapshot_preview1.MustInstantiate(r.ctx, r.rt)
-	cm, err := r.rt.CompileModule(r.ctx, guestModule())
+	rt := wazero.NewRuntimeWithConfig(r.ctx, wazero.NewRuntimeConfigInterpreter())
+	if _, err := wasi_snapshot_preview1.Instantiate(r.ctx, rt); err != nil {
+		guestInfraErr = "wasi: " + err.Error()
+		rt.Close(r.ctx)
+		return false
+	}
+	cm, err := rt.CompileModule(r.ctx, guestModule())
 	if err != nil {
-		hx.Fatal("guest module: %v", err)
+		guestInfraErr = "guest module: " + err.Error()
+		rt.Close(r.ctx)
+		return false
 	}
-	r.guestCM = cm
+	r.rt, r.guestCM = rt, cm
+	return true
 }
 
 func (r *run) close() {
@@ -1011,7 +1025,9 @@ func (r *run) close() {
 
 // instantiate returns the guest view "args=[…] env=[…] pre=[…]" or "error:…".
 func (r *run) instantiate(n *node, withSock bool, read bool) string {
-	r.ensureRuntime()
+	if !r.ensureRuntime() {
+		return "error:guest runtime unavailable"
+	}
 	ctx := r.ctx
 	if withSock {
 		// the exported path: experimental/sock.WithConfig puts the internal config under sock.ConfigKey
@@ -1123,6 +1139,10 @@ func (r *run) guestCheck(i int, first bool) *verdict {
 		return nil
 	}
 	g := r.instantiate(n, false, true)
+	// instantiating is a "later use": it must not change any node either (incl. the node itself)
+	if v := r.monitor(len(r.nodes), Step{Op: "inst", Parent: i}); v != nil {
+		return v
+	}
 	if strings.HasPrefix(g, "error:") {
 		return nil
 	}
@@ -1156,7 +1176,7 @@ func (r *run) guestCheck(i int, first bool) *verdict {
 // ---------------------------------------------------------------------------------------------
 // generation
 
-func genStep(rnd *rand.Rand, r *run, instProb int) (Step, bool) {
+func genStep(rnd *rand.Rand, r *run, instProb int, refw map[string]bool) (Step, bool) {
 	// receiver: half of the time the newest node (chains grow capacity), else any node (siblings)
 	var pi int
 	switch rnd.Intn(4) {
@@ -1178,9 +1198,23 @@ func genStep(rnd *rand.Rand, r *run, instProb int) (Step, bool) {
 		return Step{}, false
 	}
 	name := ms[rnd.Intn(len(ms))]
-	if p.kind == "moduleConfig" && rnd.Intn(3) == 0 {
-		name = "WithEnv"
+	// bias towards the methods that write through a slice/map (per the regenerated table)
+	if rnd.Intn(3) == 0 {
+		var ws []string
+		for _, m := range ms {
+			if refw[p.kind+"."+m] {
+				ws = append(ws, m)
+			}
+		}
+		if len(ws) > 0 {
+			name = ws[rnd.Intn(len(ws))]
+		}
 	}
+	return genCall(rnd, r, pi, name)
+}
+
+func genCall(rnd *rand.Rand, r *run, pi int, name string) (Step, bool) {
+	p := r.nodes[pi]
 	m := reflect.ValueOf(p.cfg).MethodByName(name)
 	mt := m.Type()
 	s := getSig(p.kind, name)
@@ -1365,7 +1399,7 @@ func concurrentPhase(rnd *rand.Rand, rounds, workers, stepsPer int) {
 		r.quiet = true
 		r.roots()
 		for len(base.Steps) < 12 {
-			st, ok := genStep(rnd, r, 0)
+			st, ok := genStep(rnd, r, 0, nil)
 			if !ok {
 				continue
 			}
@@ -1449,7 +1483,7 @@ func concurrentPhase(rnd *rand.Rand, rounds, workers, stepsPer int) {
 					now := snapshot(n.cfg)
 					if d := diffSnap(n.snap, now); len(d) > 0 {
 						mu.Lock()
-						rep.Violate(hx.Violation{Kind: "impl-violation", Signature: "C19:concurrent-derivation-changes-" + n.kind + "." + strings.Join(d, "+"),
+						rep.Violate(hx.Violation{Kind: "impl-violation", Signature: "C19:under-concurrency-changes-" + n.kind + "." + strings.Join(d, "+"),
 							What:  fmt.Sprintf("a %s derived in one goroutine changed while other goroutines derived from the same base (fields %v)", n.kind, d),
 							Input: map[string]any{"base": base, "workers": workers}, Expected: n.snap, Actual: now})
 						mu.Unlock()
@@ -1464,7 +1498,7 @@ func concurrentPhase(rnd *rand.Rand, rounds, workers, stepsPer int) {
 			n := r.nodes[i]
 			now := snapshot(n.cfg)
 			if d := diffSnap(n.snap, now); len(d) > 0 {
-				rep.Violate(hx.Violation{Kind: "impl-violation", Signature: "C19:concurrent-derivation-changes-base-" + n.kind + "." + strings.Join(d, "+"),
+				rep.Violate(hx.Violation{Kind: "impl-violation", Signature: "C19:under-concurrency-changes-base-" + n.kind + "." + strings.Join(d, "+"),
 					What:  fmt.Sprintf("base node %d (%s) changed while %d goroutines derived from it (fields %v)", i, n.origin, workers, d),
 					Input: map[string]any{"base": base, "workers": workers}, Expected: n.snap, Actual: now})
 			}
@@ -1531,7 +1565,7 @@ func raceChild() {
 	}
 	if code == 66 || strings.Contains(racetxt, "DATA RACE") {
 		loc := raceLocation(racetxt)
-		rep.Violate(hx.Violation{Kind: "impl-violation", Signature: "C19:data-race:" + loc,
+		rep.Violate(hx.Violation{Kind: "impl-violation", Signature: "C19:race-detector:" + loc,
 			What:   "go's race detector reports a data race while several goroutines derive from / instantiate with shared configurations: " + loc,
 			Input:  map[string]any{"seed": *hx.Seed, "how": "hc19 -racechild (binary built with -race)"},
 			Actual: truncate(racetxt, 3000)})
@@ -1636,48 +1670,69 @@ func main() {
 	if hx.Thorough() {
 		ntrees, nsteps = 600, 60
 	}
-	covered := map[string]bool{}
+	refw := map[string]bool{}
+	for _, m := range split(orc.Ask("c19 refwriters")) {
+		refw[m] = true
+	}
 	for k := 0; k < ntrees; k++ {
-		r := newRun(true)
-		hidden = map[int]string{}
-		r.roots()
-		var t Tree
-		guests := k%3 == 0
-		var bad *verdict
-		for len(t.Steps) < nsteps && bad == nil {
-			st, ok := genStep(rnd, r, 4)
-			if !ok {
-				break
-			}
-			p := r.nodes[st.Parent]
-			key := stepClass(p, st)
-			t.Steps = append(t.Steps, st)
-			before := len(r.nodes)
-			bad = r.doStep(st)
-			rep.Case(key)
-			what := st.Method
-			if st.Op == "inst" {
-				what = fmt.Sprintf("InstantiateModule[sock=%v]", st.Sock)
-			}
-			rep.Count("step:" + p.kind + "." + what)
-			covered[p.kind+"."+st.Method] = true
-			if bad == nil && guests && len(r.nodes) > before {
-				bad = r.guestCheck(len(r.nodes)-1, true)
-			}
+		explore(nsteps, k%3 == 0, k < 2, func(r *run) (Step, bool) { return genStep(rnd, r, 4, refw) })
+	}
+	// targeted search (DESIGN section 3, verdict rule iii): around every method the classifier rejects,
+	// and around every method that writes through a reference: a chain of calls (capacities 1,2,4,8,…),
+	// then two children of every chain node (the derive-derive-inspect pattern).
+	targets := map[string]bool{}
+	for m := range refw {
+		targets[m] = true
+	}
+	if strings.HasPrefix(safe, "unsafe:") {
+		for _, m := range split(strings.TrimPrefix(safe, "unsafe:")) {
+			targets[m] = true
 		}
-		if bad == nil && guests {
-			for i := range r.nodes {
-				if bad = r.guestCheck(i, false); bad != nil {
-					break
+	}
+	var tl []string
+	for m := range targets {
+		tl = append(tl, m)
+	}
+	sort.Strings(tl)
+	reps := 2
+	if hx.Thorough() {
+		reps = 10
+	}
+	for _, m := range tl {
+		if strings.HasSuffix(m, ".InstantiateModule") {
+			continue
+		}
+		dot := strings.LastIndex(m, ".")
+		kind, method := m[:dot], m[dot+1:]
+		for k := 0; k < reps; k++ {
+			var chain []int
+			phase := 0
+			explore(30, false, false, func(r *run) (Step, bool) {
+				root := -1
+				for i, n := range r.nodes {
+					if n.kind == kind {
+						root = i
+						break
+					}
 				}
-			}
-		}
-		if k < 2 {
-			rep.Sample(map[string]any{"tree": describe(t)[:min(12, len(t.Steps)+1)]})
-		}
-		r.close()
-		if bad != nil {
-			report(bad, t, len(t.Steps)-1)
+				if root < 0 || !reflect.ValueOf(r.nodes[root].cfg).MethodByName(method).IsValid() {
+					return Step{}, false
+				}
+				if len(chain) == 0 {
+					chain = []int{root}
+				}
+				// the node created by the previous chain step
+				if phase > 0 && phase <= 8 && len(r.nodes)-1 != chain[len(chain)-1] && r.nodes[len(r.nodes)-1].kind == kind {
+					chain = append(chain, len(r.nodes)-1)
+				}
+				phase++
+				recv := chain[len(chain)-1]
+				if phase > 8 {
+					recv = chain[((phase-9)/2)%len(chain)]
+				}
+				return genCall(rnd, r, recv, method)
+			})
+			rep.Count("targeted-trees")
 		}
 	}
 	// coverage: every With… method of the table was exercised
@@ -1696,7 +1751,59 @@ func main() {
 	if hx.Thorough() {
 		raceChild()
 	}
+	if guestInfraErr != "" {
+		if len(rep.Violations) == 0 {
+			hx.Fatal("guest runtime could not be set up: %s", guestInfraErr)
+		}
+		rep.Note("guest runtime could not be set up (%s); guest views were not compared on this run", guestInfraErr)
+	}
 	rep.Write(orc)
+}
+
+var covered = map[string]bool{}
+
+// explore builds one tree step by step with the chooser, under monitor and model.
+func explore(nsteps int, guests bool, sample bool, choose func(r *run) (Step, bool)) {
+	r := newRun(true)
+	hidden = map[int]string{}
+	r.roots()
+	var t Tree
+	var bad *verdict
+	for len(t.Steps) < nsteps && bad == nil {
+		st, ok := choose(r)
+		if !ok {
+			break
+		}
+		p := r.nodes[st.Parent]
+		key := stepClass(p, st)
+		t.Steps = append(t.Steps, st)
+		before := len(r.nodes)
+		bad = r.doStep(st)
+		rep.Case(key)
+		what := st.Method
+		if st.Op == "inst" {
+			what = fmt.Sprintf("InstantiateModule[sock=%v]", st.Sock)
+		}
+		rep.Count("step:" + p.kind + "." + what)
+		covered[p.kind+"."+st.Method] = true
+		if bad == nil && guests && len(r.nodes) > before {
+			bad = r.guestCheck(len(r.nodes)-1, true)
+		}
+	}
+	if bad == nil && guests {
+		for i := range r.nodes {
+			if bad = r.guestCheck(i, false); bad != nil {
+				break
+			}
+		}
+	}
+	if sample {
+		rep.Sample(map[string]any{"tree": describe(t)[:min(12, len(t.Steps)+1)]})
+	}
+	r.close()
+	if bad != nil {
+		report(bad, t, len(t.Steps)-1)
+	}
 }
 
 func stepClass(p *node, st Step) string {
@@ -1759,6 +1866,9 @@ func loadSigsFromEnv() {
 
 // replay: re-run the derivations recorded in a replay file written by ./check (or a bare Tree JSON).
 func replay(path string) {
+	if !fileExists(path) && !filepath.IsAbs(path) && os.Getenv("VERIF_ROOT") != "" {
+		path = filepath.Join(os.Getenv("VERIF_ROOT"), path) // the driver runs us with cwd=harness/
+	}
 	b, err := os.ReadFile(path)
 	if err != nil {
 		hx.Fatal("replay: %v", err)
